@@ -42,11 +42,18 @@ def run(ctx):
                 'non-trivial = at least two pools and at least one pending completion' % maxk)
     todo = []     # (outcomes, order, reconnect, round2 outcomes or None)
     for k in range(0, maxk + 1):
-        for outs in itertools.product(K.OUTCOMES, repeat=k):
+        vecs = list(itertools.product(K.OUTCOMES, repeat=k))
+        if ctx.tier == 'quick' and k >= 3:
+            ctx.rng.shuffle(vecs)
+            vecs = vecs[:260]
+            ctx.exhaustive = False
+        for outs in vecs:
             for order in itertools.permutations(K.pending_of(outs)):
                 todo.append((list(outs), list(order), True, None))
+            if 'lost' in outs:
+                todo.append((list(outs), 'race', False, None))
     R2 = ['ok', 'invalid', 'connerr']
-    first = [o for o in K.OUTCOMES if o != 'emptyv2']
+    first = [o for o in K.OUTCOMES if o not in ('emptyv2', 'lost')]
     for k in (1, 2):
         for outs in itertools.product(first, repeat=k):
             for order in itertools.permutations(K.pending_of(outs)):
@@ -73,8 +80,14 @@ def run(ctx):
     cases, meta = [], []
     for outs, order, rec, r2 in todo:
         case = {'outcomes': outs, 'order': order, 'reconnect': rec, 'round2': r2}
+        if order == 'race':
+            case['switch_lands_during_reconnect'] = True
         try:
-            r = K.run_case(outs, order, reconnect=rec, round2=r2)
+            if order == 'race':
+                r = K.run_race(outs)
+                order = [i for i in range(len(outs)) if outs[i] in K.PENDING]
+            else:
+                r = K.run_case(outs, order, reconnect=rec, round2=r2)
         except Exception as e:
             ctx.violation('keyspace-switch.exception', 'the driver raised %r for %s' % (e, case), case=case, theorem='C20_always_completes', kind='history')
             continue
@@ -162,8 +175,12 @@ def replay(ctx, rp):
     if 'outcomes' not in case:
         print('nothing to replay: %s' % rp.get('theorem'))
         return 1
-    r = K.run_case(case['outcomes'], case['order'], reconnect=case.get('reconnect', False), round2=case.get('round2'))
-    found = K.oracle(r, case['order'], complete1=(sorted(case['order']) == K.pending_of(case['outcomes'])))
+    if case['order'] == 'race':
+        r = K.run_race(case['outcomes'])
+        found = K.oracle(r, [])
+    else:
+        r = K.run_case(case['outcomes'], case['order'], reconnect=case.get('reconnect', False), round2=case.get('round2'))
+        found = K.oracle(r, case['order'], complete1=(sorted(case['order']) == K.pending_of(case['outcomes'])))
     print('outcomes %s order %s -> final callback args %s' % (case['outcomes'], case['order'], r.calls))
     for f in found:
         print('  %s: %s' % (f[0], f[1]))
